@@ -69,6 +69,9 @@ type c17Case struct {
 	// by the goroutines of their sessions); Sched steers the yield points
 	Race  uint32 `json:"race"`
 	Sched uint64 `json:"sched"`
+	// CEAddPath: the CE sessions negotiate ADD-PATH (the server receives); a CE announces its prefix under path
+	// identifier 1+Origin and withdraws identifiers one by one: the route is exported while one identifier is left
+	CEAddPath bool `json:"ce_add_path,omitempty"`
 }
 
 const c17NRT = 4
@@ -109,6 +112,7 @@ func drawC17(t *rapid.T) c17Case {
 		}
 		c.Ops = append(c.Ops, op)
 	}
+	c.CEAddPath = rapid.IntRange(0, 2).Draw(t, "ce_add_path") == 0
 	if rapid.IntRange(0, 1).Draw(t, "racing") == 0 {
 		c.Race = rapid.Uint32().Draw(t, "race")
 		c.Sched = uint64(rapid.IntRange(1, 1<<30).Draw(t, "sched"))
@@ -138,6 +142,7 @@ type c17Run struct {
 	vce    [2]*rsView
 	vpn    map[string]c17Route // P's announcements, key rd|prefix
 	ceRt   [2]map[int]bool     // CE announcements (prefix indexes)
+	ceIDs  [2]map[uint32]bool  // with ADD-PATH: the path identifiers the CE currently announces its prefix under
 	member map[string]bool     // Q's memberships, key origin|rt
 	v2     bool
 	log    []string
@@ -298,6 +303,11 @@ func (r *c17Run) verify(step string) *verifkit.Failure {
 			}
 			if n == 0 {
 				n = 1 // a CE route
+				for ci := 0; ci < 2; ci++ {
+					if r.c.CEAddPath && strings.HasPrefix(prefix.String(), c17VrfRD(ci)+":") {
+						n = len(r.ceIDs[ci]) // one path per identifier
+					}
+				}
 			}
 			if len(paths) != n {
 				got[fmt.Sprintf("%s x%d (expected x%d)", prefix, len(paths), n)] = true
@@ -492,16 +502,29 @@ func (r *c17Run) apply(op c17Op) *verifkit.Failure {
 		op.A = 2 + op.CE
 		ce := &r.ce[op.CE]
 		a := rsAttrs{MED: -1, LocalPref: -1, NextHop: "192.0.2.1", ASPath: []rsSeg{{T: 2, AS: []uint32{ce.AS}}}}
+		id := uint32(0)
+		if r.c.CEAddPath {
+			id = uint32(1 + op.Origin)
+			a.MED = int64(id) // the two versions differ
+			r.ceIDs[op.CE][id] = true
+		}
 		nlri, _ := bgp.NewIPAddrPrefix(c17Prefix(op.A))
-		_ = r.sce[op.CE].send(bgp.NewBGPUpdateMessage(nil, a.toBGP(nlri, false, 0), []bgp.PathNLRI{{NLRI: nlri}}), rsTxOpt(ce))
+		_ = r.sce[op.CE].send(bgp.NewBGPUpdateMessage(nil, a.toBGP(nlri, false, id), []bgp.PathNLRI{{NLRI: nlri, ID: id}}), rsTxOpt(ce))
 		r.ceRt[op.CE][op.A] = true
-		r.logf("CE %d announces %s", op.CE, c17Prefix(op.A))
+		r.logf("CE %d announces %s id=%d", op.CE, c17Prefix(op.A), id)
 	case c17CEWithdraw:
 		op.A = 2 + op.CE
+		id := uint32(0)
+		if r.c.CEAddPath {
+			id = uint32(1 + op.Origin)
+			delete(r.ceIDs[op.CE], id)
+		}
 		nlri, _ := bgp.NewIPAddrPrefix(c17Prefix(op.A))
-		_ = r.sce[op.CE].send(bgp.NewBGPUpdateMessage([]bgp.PathNLRI{{NLRI: nlri}}, nil, nil), rsTxOpt(&r.ce[op.CE]))
-		delete(r.ceRt[op.CE], op.A)
-		r.logf("CE %d withdraws %s", op.CE, c17Prefix(op.A))
+		_ = r.sce[op.CE].send(bgp.NewBGPUpdateMessage([]bgp.PathNLRI{{NLRI: nlri, ID: id}}, nil, nil), rsTxOpt(&r.ce[op.CE]))
+		if !r.c.CEAddPath || len(r.ceIDs[op.CE]) == 0 {
+			delete(r.ceRt[op.CE], op.A)
+		}
+		r.logf("CE %d withdraws %s id=%d", op.CE, c17Prefix(op.A), id)
 	case c17Member, c17Unmember:
 		origin := []uint32{65002, 65077}[op.Origin]
 		var nlri *bgp.RouteTargetMembershipNLRI
@@ -558,9 +581,13 @@ func runC17(t *testing.T) func(c c17Case, st *verifkit.Stats) *verifkit.Failure 
 			r := &c17Run{c: &c, n: n, vpn: map[string]c17Route{}, vpn2: map[string]c17Route{}, member: map[string]bool{}, vp: &c17View{entries: map[string]string{}}, vq: &c17View{entries: map[string]string{}}, vp2: &c17View{entries: map[string]string{}}}
 			r.p2 = rsPeer{Addr: "10.0.0.3", ID: "10.0.0.3", Kind: rsEBGP, AS: 65003}
 			r.ceRt = [2]map[int]bool{{}, {}}
+			r.ceIDs = [2]map[uint32]bool{{}, {}}
 			r.p = rsPeer{Addr: "10.0.0.1", ID: "10.0.0.1", Kind: rsEBGP, AS: 65001}
 			r.q = rsPeer{Addr: "10.0.0.2", ID: "10.0.0.2", Kind: rsEBGP, AS: 65002}
 			r.ce = [2]rsPeer{{Addr: "10.0.1.1", ID: "10.0.1.1", Kind: rsEBGP, AS: 65101}, {Addr: "10.0.1.2", ID: "10.0.1.2", Kind: rsEBGP, AS: 65102}}
+			if c.CEAddPath {
+				r.ce[0].AddPathRecv, r.ce[1].AddPathRecv = true, true
+			}
 			for i := 0; i < 2; i++ {
 				if err := n.s.AddVrf(ctx, &api.AddVrfRequest{Vrf: c17ApiVrf(i, c.Vrfs[i])}); err != nil {
 					return verifkit.Failf("addvrf", "%v", err)
@@ -597,6 +624,9 @@ func runC17(t *testing.T) func(c c17Case, st *verifkit.Stats) *verifkit.Failure 
 			}
 			for i := range r.ce {
 				spec := simOpenSpec{Families: []uint32{uint32(bgp.RF_IPv4_UC)}, RR: true}
+				if c.CEAddPath {
+					spec.AddPath = []uint32{uint32(bgp.RF_IPv4_UC)<<8 | uint32(bgp.BGP_ADD_PATH_SEND)}
+				}
 				if r.sce[i], _, err = n.establish(r.ce[i].def(), spec); err != nil {
 					return verifkit.Failf("establish", "CE %d: %v", i, err)
 				}
@@ -630,6 +660,9 @@ func runC17(t *testing.T) func(c c17Case, st *verifkit.Stats) *verifkit.Failure 
 			}
 			if memberOps > 0 && filtered && len(r.global()) >= 2 {
 				st.Nontrivial()
+			}
+			if c.CEAddPath {
+				st.Label("ce-add-path")
 			}
 			return n.stop()
 		})
